@@ -3,6 +3,7 @@ package main
 import (
 	"fmt"
 	"go/token"
+	"go/types"
 	"regexp/syntax"
 	"sort"
 	"strings"
@@ -146,6 +147,24 @@ func ruleQuotedPattern(c *Ctx) {
 	}
 	c.count("glob-compile-sites", n)
 	c.floor("glob-compile-sites", 2)
+	// the pattern is translated rune by rune (or by substrings): string(b) of a single *byte*
+	// re-encodes every byte >= 0x80 as a two-byte rune, so a non-ASCII literal no longer matches itself
+	nb := 0
+	for _, fn := range c.P.RepoFuncs(pkgGlob) {
+		allInstrs(fn, func(ins ssa.Instruction) {
+			cv, ok := ins.(*ssa.Convert)
+			if !ok || !isStringType(cv.Type()) {
+				return
+			}
+			if b, ok := cv.X.Type().Underlying().(*types.Basic); ok && b.Kind() == types.Uint8 {
+				nb++
+				c.bad(rid, fmt.Sprintf("%s/string-of-byte#%d", fnName(fn), nb), c.P.instrPos(cv), "a single byte of the pattern is converted with string(b): bytes of multi-byte characters are re-encoded one by one, so non-ASCII literals in a pattern match the wrong keys")
+			}
+		})
+	}
+	if nb == 0 {
+		c.ok(rid, "no-string-of-byte", "", "the translator never converts a single byte to a string")
+	}
 	// R17.c: constants in the translator
 	// the translator: the function whose result is handed to the regular-expression compiler
 	// (or the compiling function itself when the expression is built in place)
@@ -427,6 +446,38 @@ func rulePatternOneInterpreter(c *Ctx) {
 				c.bad(rid, fnName(fn)+"/MatchPattern-store", c.P.instrPos(st), "ScanOption.MatchPattern is not the result of glob.Compile/MustCompile")
 			}
 		})
+	}
+	// verdict: the compiled glob decides by MatchString/Match only
+	c.rule("R17.e", "outside redis/glob, production code consults a *regexp.Regexp only through Match/MatchString/MatchReader (and String): the key matches iff the anchored expression matches the whole key; Find*/Replace*/Split* results compared with the key are not that verdict (an unmatched empty key equals the empty 'no match' result)")
+	verdicts, otherUses := 0, 0
+	for _, fn := range c.P.RepoFuncs(modPath) {
+		if !inProd(fn) || fnPkgPath(fn) == pkgGlob {
+			continue
+		}
+		allInstrs(fn, func(ins ssa.Instruction) {
+			cc := callCommon(ins)
+			if cc == nil {
+				return
+			}
+			nme := calleeName(cc)
+			if !strings.HasPrefix(nme, "(*regexp.Regexp).") {
+				return
+			}
+			switch strings.TrimPrefix(nme, "(*regexp.Regexp).") {
+			case "MatchString", "Match", "MatchReader":
+				verdicts++
+				c.analysed(fn)
+			case "String":
+			default:
+				otherUses++
+				c.bad("R17.e", fmt.Sprintf("%s/%s", fnName(fn), nme), c.P.instrPos(ins), "the compiled glob is consulted through "+nme+" instead of Match*: its result is not the whole-key verdict")
+			}
+		})
+	}
+	c.count("glob-verdict-sites", verdicts)
+	c.floor("glob-verdict-sites", 2)
+	if otherUses == 0 {
+		c.ok("R17.e", "verdict-by-Match", "", fmt.Sprintf("%d verdict sites, all Match*", verdicts))
 	}
 	c.count("pattern-flows", sinks)
 	c.floor("pattern-flows", 2)
